@@ -33,6 +33,7 @@ for r in results:
             continue
         if res["result"] != "unsat" or "-v" in sys.argv:
             print(f"  {flag} {ob.coarse_id} [{res.get('solver')}, {res.get('seconds',0):.2f}s] {' '.join(ob.trace[-6:])}")
+            if res["result"] == "unknown": print("     tried:", res.get("tried"))
             if res["result"] == "sat" and "-m" in sys.argv:
                 print("     ", res["raw"][:600])
 print(f"solve wall {t:.1f}s")
